@@ -339,6 +339,7 @@ def run_rx(pid, tier, rep, deadline_s):
 
 # ----------------------------------------------------------------------------- compiled black-box programs (E-IN / E-CT)
 BB_FLAGS = ['-std=c++17', '-O1', '-I' + os.path.join(REPO, 'include')]
+PROG_TIMEOUT = 1200   # every compiled program finishes in seconds on the unchanged tree; this is the horizon for "does not terminate"
 
 def build_prog(name, src, compiler, extra_flags=()):
     deps = [os.path.join(VERIF, 'ref', 'lr1.hpp'), os.path.join(VERIF, 'ref', 'regex.hpp')]
@@ -359,7 +360,7 @@ def run_progs(pid, rep, specs, deadline_s):
     def run(je):
         (sp, comp), exe = je
         if isinstance(exe, tuple): return None
-        return sh([exe] + [str(a) for a in sp.get('args', [])], timeout=max(30, deadline_s))
+        return sh([exe] + [str(a) for a in sp.get('args', [])], timeout=PROG_TIMEOUT)
     with ThreadPoolExecutor(max_workers=NCPU) as ex: outs = list(ex.map(run, zip(jobs, exes)))
     for (sp, comp), exe, r in zip(jobs, exes, outs):
         label = '%s [%s]' % (sp.get('label', sp['name']), comp)
@@ -367,6 +368,8 @@ def run_progs(pid, rep, specs, deadline_s):
             msg = [l for l in exe[1].splitlines() if 'error' in l][:3]
             rep.add({'kind': 'does-not-compile', 'known': '', 'engine': 'prog', 'summary': '%s: the documented usage exercised by progs/%s no longer compiles: %s' % (label, sp['src'], ' / '.join(msg)[:600]), 'program': sp['src'], 'compiler': comp})
             bounds.append({'pass': label, 'completed': False}); continue
+        if getattr(r, 'timed_out', False):
+            rep.add({'kind': 'no-termination', 'known': '', 'engine': 'prog', 'summary': '%s: the program did not finish within %d s (it takes seconds on the unchanged tree)' % (label, PROG_TIMEOUT), 'program': sp['src'], 'compiler': comp}); bounds.append({'pass': label, 'completed': False}); continue
         line = (r.stdout.strip().splitlines() or [''])[-1]
         try: res = json.loads(line)
         except Exception:
@@ -579,7 +582,7 @@ def run_c15(pid, tier, rep, deadline_s):
         except Exception: return None
     if not isinstance(exe, tuple):
         depth = 3 if q else 4
-        r = sh([exe, 'hist', str(depth)], timeout=deadline_s)
+        r = sh([exe, 'hist', str(depth)], timeout=PROG_TIMEOUT)
         res = parse(r)
         if res is None: rep.add({'kind': 'program-crashed', 'known': '', 'engine': 'sched', 'summary': 'history exploration exited %s: %s' % (r.returncode, (r.stdout + r.stderr)[-300:])})
         else:
@@ -588,7 +591,7 @@ def run_c15(pid, tier, rep, deadline_s):
             samples.append({'mode': 'hist', 'result': res}); states += res['histories']; trans += res['checks']; cases += res['histories']
         bound = 2
         nsh = 12
-        with ThreadPoolExecutor(max_workers=nsh) as ex: outs = list(ex.map(lambda k: sh([exe, 'sched', str(bound), '%d/%d' % (k, nsh)], timeout=deadline_s), range(nsh)))
+        with ThreadPoolExecutor(max_workers=nsh) as ex: outs = list(ex.map(lambda k: sh([exe, 'sched', str(bound), '%d/%d' % (k, nsh)], timeout=PROG_TIMEOUT), range(nsh)))
         tot = {'schedules': 0, 'scheduling_points': 0, 'failures': 0, 'pairs': 0, 'maxp': 0}; first = ''
         ok = True
         for r in outs:
@@ -604,7 +607,7 @@ def run_c15(pid, tier, rep, deadline_s):
         extra = tot
         # three threads, one call each: every choice of who starts, who continues after a thread ends, and at most 1 preemption (quick) / 2 (thorough)
         b3 = 1 if q else 2
-        with ThreadPoolExecutor(max_workers=6) as ex: outs3 = list(ex.map(lambda k: sh([exe, 'sched', str(b3), '%d/6' % k, '3'], timeout=deadline_s), range(6)))
+        with ThreadPoolExecutor(max_workers=6) as ex: outs3 = list(ex.map(lambda k: sh([exe, 'sched', str(b3), '%d/6' % k, '3'], timeout=PROG_TIMEOUT), range(6)))
         t3 = {'schedules': 0, 'scheduling_points': 0, 'failures': 0}; first3 = ''; ok3 = True
         for r in outs3:
             res = parse(r)
@@ -618,7 +621,7 @@ def run_c15(pid, tier, rep, deadline_s):
         samples.append({'mode': 'sched3', 'result': t3}); states += t3['schedules']; trans += t3['scheduling_points']; cases += t3['schedules']
     if not isinstance(exet, tuple):
         env = dict(os.environ); env['TSAN_OPTIONS'] = 'halt_on_error=1 exitcode=66'
-        r = subprocess.run([exet, 'free', '20' if q else '200'], stdout=subprocess.PIPE, stderr=subprocess.PIPE, universal_newlines=True, env=env, timeout=deadline_s)
+        r = sh([exet, 'free', '20' if q else '200'], env=env, timeout=PROG_TIMEOUT)
         res = parse(r)
         if r.returncode == 66 or 'ThreadSanitizer' in r.stderr:
             loc = [l.strip() for l in r.stderr.splitlines() if 'ctpg.hpp' in l][:2]
@@ -768,6 +771,9 @@ def main(argv):
         return rep.finish()
     except HarnessError as e:
         print('HARNESS-ERROR: ' + str(e)); return 2
+    except Exception as e:   # a bug in the driver must never look like a verdict about ctpg
+        import traceback; traceback.print_exc()
+        print('HARNESS-ERROR: unexpected exception in the driver: %r' % (e,)); return 2
 
 def dispatch(pid, tier, rep, deadline):
     if True:
